@@ -33,6 +33,8 @@ type Solver struct {
 	// so that z3 can use its non-incremental bit-vector tactic.
 	Fresh   bool
 	history []string // declarations, definitions and assertions of the current path
+	lines   chan string
+	Restarts int
 	SetLogic string
 }
 
@@ -69,6 +71,19 @@ func (s *Solver) start() error {
 	}
 	s.emitted = make(map[int]bool)
 	s.declared = make(map[string]bool)
+	ch := make(chan string, 1024)
+	s.lines = ch
+	rd := s.out
+	go func() {
+		for {
+			line, err := rd.ReadString('\n')
+			if err != nil {
+				close(ch)
+				return
+			}
+			ch <- strings.TrimRight(line, "\r\n")
+		}
+	}()
 	s.preamble()
 	return nil
 }
@@ -92,11 +107,27 @@ func (s *Solver) Close() {
 }
 
 func (s *Solver) rec(line string) {
+	s.history = append(s.history, line)
 	if s.Fresh {
-		s.history = append(s.history, line)
 		return
 	}
 	s.send(line)
+}
+
+// restart kills a stuck solver process and brings a new one to the same assertion state.
+func (s *Solver) restart() {
+	s.Close()
+	s.Restarts++
+	em, de := s.emitted, s.declared
+	if err := s.start(); err != nil {
+		panic(&SolverError{Msg: "restart failed: " + err.Error()})
+	}
+	s.emitted, s.declared = em, de
+	if !s.Fresh {
+		for _, h := range s.history {
+			s.send(h)
+		}
+	}
 }
 
 func (s *Solver) send(line string) {
@@ -190,18 +221,24 @@ type SolverError struct{ Msg string }
 
 func (e *SolverError) Error() string { return "solver error: " + e.Msg }
 
-func (s *Solver) readUntilMarker(marker string) []string {
+// readUntilMarker collects output lines up to the echo marker; ok=false on watchdog timeout.
+func (s *Solver) readUntilMarker(marker string, limit time.Duration) ([]string, bool) {
 	var lines []string
+	timer := time.NewTimer(limit)
+	defer timer.Stop()
 	for {
-		line, err := s.out.ReadString('\n')
-		if err != nil {
-			panic(&SolverError{Msg: "solver died: " + err.Error() + " after " + strings.Join(lines, "|")})
+		select {
+		case line, open := <-s.lines:
+			if !open {
+				panic(&SolverError{Msg: "solver died after " + strings.Join(lines, "|")})
+			}
+			if line == marker || line == "\""+marker+"\"" {
+				return lines, true
+			}
+			lines = append(lines, line)
+		case <-timer.C:
+			return lines, false
 		}
-		line = strings.TrimRight(line, "\r\n")
-		if line == marker || line == "\""+marker+"\"" {
-			return lines
-		}
-		lines = append(lines, line)
 	}
 }
 
@@ -237,8 +274,15 @@ func (s *Solver) Check(extra []*Term, wantModel []*Term) (Result, map[string]uin
 	}
 	s.send("(check-sat)")
 	s.send(fmt.Sprintf("(echo \"%s\")", marker))
-	lines := s.readUntilMarker(marker)
+	lines, okRead := s.readUntilMarker(marker, time.Duration(s.TimeoutMs)*time.Millisecond+5*time.Second)
 	s.Queries++
+	if !okRead {
+		// the solver ignored its own timeout: kill it, restart, report unknown
+		s.restart()
+		s.Time += time.Since(start)
+		s.Unknown++
+		return Unknown, nil
+	}
 	res := Unknown
 	for _, l := range lines {
 		if strings.HasPrefix(l, "(error") {
@@ -268,7 +312,10 @@ func (s *Solver) Check(extra []*Term, wantModel []*Term) (Result, map[string]uin
 			m2 := "DONE-" + strconv.Itoa(s.seq)
 			s.send("(get-value (" + strings.Join(names[i:j], " ") + "))")
 			s.send(fmt.Sprintf("(echo \"%s\")", m2))
-			ls := s.readUntilMarker(m2)
+			ls, okm := s.readUntilMarker(m2, 60*time.Second)
+			if !okm {
+				panic(&SolverError{Msg: "model retrieval timed out"})
+			}
 			parseModel(strings.Join(ls, " "), model)
 		}
 	}
